@@ -110,6 +110,8 @@ static void *thread_body(void *vp)
     return NULL;
 }
 
+struct hand_over { vr_rng *r; size_t target; int churn; };
+static void *history_in_thread(void *vp) { struct hand_over *h = vp; cmb_logger_flags_off(CMB_LOGGER_INFO | CMB_LOGGER_WARNING); history(h->r, h->target, h->churn); return NULL; }
 void vr_case(uint64_t seed, uint64_t idx, int profile)
 {
     cmb_logger_flags_off(CMB_LOGGER_INFO | CMB_LOGGER_WARNING);
@@ -149,6 +151,10 @@ void vr_case(uint64_t seed, uint64_t idx, int profile)
     if (target > 600000) target = 600000;
     vr_fp_mix(obj_sz); vr_fp_mix(pc); vr_fp_mix(ct); vr_fp_mix(target);
     ln = 0;
+    /* one pool in six is prepared here and then handed to a fresh thread that does all the allocating (a pool set up by the main program
+     * for one worker: no sharing, just another thread than the one that initialised it) */
+    if (vr_chance(&r, 1, 6)) { struct hand_over h = { &r, target, profile == 1 ? 3000 : 1500 }; pthread_t t; pthread_create(&t, NULL, history_in_thread, &h); pthread_join(t, NULL); VR_CNT("pools_initialised_here_and_used_by_another_thread"); }
+    else
     history(&r, target, profile == 1 ? 3000 : 1500);
     /* second and third lives: the same pool struct terminated (with everything on its free list, or with objects still out) and
      * initialised again with another geometry must start empty */
